@@ -64,7 +64,10 @@ SUB = {"Position": ["Position", "Position4D", "Position5D"], "KinematicChain": [
        "Entity": ["Entity", "DerivedEntity"]}
 ALT = {"Entity": "CustomEntity", "Backreference": "BackreferenceMapping", "Vector": "VectorMapped",
        "VectorsWithProperty": "VectorsWithPropertyMapped", "function": "FunctionMapping"}
-FUNCTIONS = ["module_level_function", "CallableWrapper.custom_static_method"]
+# function-valued fields: plain module-level functions, a static method, and name COLLISIONS in the dataset module:
+# example_classes imports to_json / from_json (module-level names) and defines JSONSerializableClass.to_json (a method)
+FUNCTIONS = ["module_level_function", "CallableWrapper.custom_static_method", "JSONSerializableClass.to_json", "to_json",
+             "from_json", "CallableWrapper.custom_instance_method"]
 ALTBASE = {"DerivedEntity"}  # DAO below an alternatively mapped DAO (to_dao_if_subclass_of_alternative_mapping): not modelled
 CLASS_ID = {n: i + 1 for i, n in enumerate(sorted(set(SCAL) | set(ALT.values())))}
 ROOT_KINDS = (["Torso"] * 8 + ["Node"] * 4 + ["ContainerGeneration", "ItemWithBackreference"] * 2 +
@@ -128,8 +131,21 @@ def ab_term() -> str:
     return "[" + "; ".join(f"{CLASS_ID[c]}%Z" for c in sorted(ALTBASE) if c in CLASS_ID) + "]"
 
 
+ALTGC: Dict[str, List[Tuple[int, Any]]] = {}   # class two or more levels below an alternatively mapped class whose mapping renames
+#                                              columns -> [(position in SCAL[class], the constructor default it comes back as)]  (finding C04-d)
+
+
+def gc_term() -> str:
+    items = []
+    for c in sorted(ALTGC):
+        ov = "; ".join(f"({p}%nat, {SCALARS(scalar_key(v))}%Z)" for p, v in ALTGC[c])
+        items.append(f"({CLASS_ID[c]}%Z, [{ov}])")
+    return "[" + "; ".join(items) + "]"
+
+
 def alts_ab() -> str:
-    return f"{alts_term()} {ab_term()}"
+    """the class-model arguments of the Coq functions: alternative mappings, DAO classes below one, columns lost two levels below"""
+    return f"{alts_term()} {ab_term()} {gc_term()}"
 
 
 def alts_term() -> str:
@@ -519,6 +535,7 @@ def features(descr: dict) -> Dict[str, Any]:
         "subclass_in_base_field": sum(1 for o in objs for f, _k, t, _o in REFS.get(o["c"], []) for k in o["r"].get(f, []) if objs[k]["c"] != t),
         "alt_objs": sum(1 for o in objs if o["c"] in ALT),
         "altbase_objs": sum(1 for o in objs if o["c"] in ALTBASE),
+        "altgc_objs": sum(1 for o in objs if o["c"] in ALTGC),
         "altcycle": any(on_cycle[i] and objs[i]["c"] in ALT for i in range(n)),
     }
 
@@ -788,11 +805,11 @@ def run(tier: str, seed: int, replay=None) -> int:
     gdir = core.WORK / PROP / "genmodels"
     gdir.mkdir(parents=True, exist_ok=True)
     procs = []
-    if replay is not None and "model" in replay:
+    if replay is not None and "class_model" in replay:
         rf = gdir / "replay_in.json"
         rf.write_text(json.dumps(replay))
         procs.append(("replay", gdir / "out_replay.json",
-                      _c05.spawn_worker(PROP, seed, int(replay["model"]["idx"]), 1, model_ok, gdir / "out_replay.json", rf)))
+                      _c05.spawn_worker(PROP, seed, int(replay["class_model"]["idx"]), 1, model_ok, gdir / "out_replay.json", rf)))
     elif replay is not None:
         case = replay["case"]
         if isinstance(case, dict) and case.get("scenario") == "state_reuse":
@@ -812,8 +829,12 @@ def run(tier: str, seed: int, replay=None) -> int:
     else:
         cdir = core.VERIF / "corpus" / PROP
         for f in sorted(cdir.glob("*.json")) if cdir.is_dir() else []:
-            c = json.loads(f.read_text())["case"]
-            if isinstance(c, dict) and "objs" in c:
+            w = json.loads(f.read_text())
+            c = w["case"]
+            if "class_model" in w:       # a witness over a generated class model: re-installed and run by a worker
+                outw = gdir / f"out_corpus_{f.stem}.json"
+                procs.append((f"corpus:{f.name}", outw, _c05.spawn_worker(PROP, seed, int(w["class_model"]["idx"]), 1, model_ok, outw, f)))
+            elif isinstance(c, dict) and "objs" in c:
                 descrs.append(c)
                 origin.append(f"corpus/{PROP}/{f.name}")
         nmodels, per_model = (6, 60) if tier == "quick" else (16, 150)
@@ -891,6 +912,7 @@ def run(tier: str, seed: int, replay=None) -> int:
     codes: Dict[int, List[int]] = {i: v for (i, _), v in zip(exprs, vals)}
 
     kf_altcycle = 0
+    kf_altgc = 0
     kf_altbase = 0
     c04c_open = any(f.fid == "C04-c" and f.kind == "open" for f in findings)
     stale = 0
@@ -908,9 +930,9 @@ def run(tier: str, seed: int, replay=None) -> int:
         if wf != 1:
             rep.oblige("harness:wf", False, f"{m['origin']}: dumped heap is not closed")
             continue
-        if model_ok and f04 != 1 and not ft["altcycle"]:
-            rep.oblige("harness:F04w", False, f"{m['origin']}: the model reports a mapping object handed out in progress, but no "
-                                              f"alternatively mapped object of the case lies on a cycle")
+        if model_ok and f04 != 1 and not ft["altcycle"] and not ft.get("altgc_objs"):
+            rep.oblige("harness:F04w", False, f"{m['origin']}: the model puts the case outside F04w, but no alternatively mapped object of the case "
+                                              f"lies on a cycle and no object is two levels below an alternatively mapped class")
         # the two comparators must agree: canonical forms equal <-> python bisimulation finds no difference
         if (code in (0, 1)) != (res["py_iso"] is None):
             rep.oblige("harness:comparators", False, f"{m['origin']}: canon says {'equal' if code in (0, 1) else 'different'}, "
@@ -923,8 +945,10 @@ def run(tier: str, seed: int, replay=None) -> int:
             else:
                 stale += 1
             continue
-        if code == 2 and ft["altcycle"] and not m["in_f"]:
-            kf_altcycle += 1        # C04-a: outside F04w and the implementation fails exactly as the faithful model predicts
+        if code == 2 and not m["in_f"] and (ft["altcycle"] or ft.get("altgc_objs")):
+            # outside F04w and the implementation fails exactly as the faithful model predicts
+            kf_altcycle += 1 if ft["altcycle"] else 0
+            kf_altgc += 1 if ft.get("altgc_objs") else 0
             continue
         if c04c_open and ft["altbase_objs"] >= 2 and "_objs" in res and py_iso(res["_objs"][0], res["_objs"][1], relax_altbase=True) is None:
             kf_altbase += 1          # finding C04-c (not modelled: DAO below an alternatively mapped DAO); narrow matcher above
@@ -934,7 +958,7 @@ def run(tier: str, seed: int, replay=None) -> int:
         rep.note(f"{stale} cases outside F04 where impl = spec but the model predicts a failure (model inexact / finding repaired)")
     dist["generated_models"] = gdist
     rep.extra["distribution"] = dist
-    rep.extra["known_finding_instances"] = {"C04-a": kf_altcycle, "C04-c": kf_altbase}
+    rep.extra["known_finding_instances"] = {"C04-a": kf_altcycle, "C04-c": kf_altbase, "C04-d": kf_altgc}
     rep.samples = [{"case": m["descr"], "features": m["ft"]} for m in metas[:: max(1, len(metas) // 5)]][:5]
 
     for m, why in bad[:5]:
@@ -953,7 +977,7 @@ def run(tier: str, seed: int, replay=None) -> int:
                 detail = {"spec": v[0], "model": v[1], "impl": v[2]}
             except Exception as e:  # noqa
                 detail = {"detail_error": str(e)[:200]}
-        gen = {"model": m["model"], "model_source": m.get("source")} if m.get("generated") else {}
+        gen = {"class_model": m["model"], "model_source": m.get("source")} if m.get("generated") else {}
         rep.violation({"kind": "counterexample", "case": m["descr"], "origin": m["origin"], "features": m["ft"], "why": why,
                        "impl_result_heap": m["res"].get("heap"), **detail, **gen,
                        "python": (f"from harness import c04; print(c04.explain({m['descr']!r}))" if not m.get("generated") else
